@@ -131,7 +131,7 @@ func wellFormed(a *infoSum) (keys, msgs []string) {
 func crashClass(s string) string {
 	switch {
 	case strings.Contains(s, "HARNESS-ERROR"):
-		core.HarnessError("worker reported: %s", s)
+		fail("worker reported: %s", s)
 	case strings.Contains(s, "stack overflow") || strings.Contains(s, "stack exceeds"):
 		return "stack-overflow"
 	case strings.Contains(s, "out of memory") || strings.Contains(s, "cannot allocate"):
@@ -159,41 +159,87 @@ func lastLines(s string, n int) string {
 	return strings.Join(keep, " | ")
 }
 
-// run dispatches jobs to worker subprocesses; results are returned indexed like jobs.
-func run(jobs []job, perJob time.Duration, asMB int, extraEnv ...string) []core.Result {
+var (
+	scratchEnv []string
+	phaseNo    int
+)
+
+// run dispatches jobs to worker subprocesses; results are returned indexed like jobs. A worker redirects
+// its stderr per job to a file in the scratch directory; for a job whose worker died, the head of that
+// file (where the Go runtime prints "fatal error: ...") is put in front of Result.Crash.
+func run(jobs []job, perJob time.Duration, asMB int) []core.Result {
+	phaseNo++
 	cj := make([]core.Job, len(jobs))
 	for i := range jobs {
 		b, err := json.Marshal(jobs[i])
 		if err != nil {
-			core.HarnessError("marshal job: %v", err)
+			fail("marshal job: %v", err)
 		}
 		cj[i] = core.Job{ID: i, Data: b}
 	}
-	env := append([]string{fmt.Sprintf("VERIF_C06_AS_MB=%d", asMB), "GOTRACEBACK=none"}, extraEnv...)
+	env := append([]string{fmt.Sprintf("VERIF_C06_AS_MB=%d", asMB), fmt.Sprintf("VERIF_C06_PHASE=%d", phaseNo)}, scratchEnv...)
 	t0 := time.Now()
 	got := core.RunSharded("TestC06", cj, perJob, env...)
 	kind := ""
 	if len(jobs) > 0 {
 		kind = jobs[0].Kind
 	}
-	phase("%d %s jobs done in %.1fs", len(jobs), kind, time.Since(t0).Seconds())
 	out := make([]core.Result, len(jobs))
 	seen := make([]bool, len(jobs))
+	var died, hung int
 	for _, r := range got {
 		if r.ID < 0 || r.ID >= len(jobs) || seen[r.ID] {
-			core.HarnessError("unexpected or duplicate result id %d", r.ID)
+			fail("unexpected or duplicate result id %d", r.ID)
+		}
+		if r.Crash != "" || (len(r.Data) == 0 && !r.Hang) {
+			died++
+			head := ""
+			if b, err := os.ReadFile(errFile(phaseNo, r.ID)); err == nil {
+				if len(b) > 3000 {
+					b = b[:3000]
+				}
+				head = string(b)
+			}
+			r.Crash = head + "\n[...]\n" + r.Crash
+			if strings.TrimSpace(head) == "" && strings.TrimSpace(strings.TrimPrefix(r.Crash, "\n[...]\n")) == "" {
+				r.Crash = "(worker process died without output: killed by a signal)"
+			}
+		}
+		if r.Hang {
+			hung++
 		}
 		out[r.ID], seen[r.ID] = r, true
 	}
 	for i, ok := range seen {
 		if !ok {
-			core.HarnessError("no result for job %d", i)
+			fail("no result for job %d", i)
 		}
 	}
+	for i := range jobs {
+		os.Remove(errFile(phaseNo, i))
+	}
+	phase("phase %d: %d %s jobs done in %.1fs (%d worker deaths, %d over wall budget)", phaseNo, len(jobs), kind, time.Since(t0).Seconds(), died, hung)
 	return out
 }
 
+func errFile(phase, id int) string {
+	for _, e := range scratchEnv {
+		if strings.HasPrefix(e, "VERIF_C06_SHM=") {
+			return fmt.Sprintf("%s/err-%d-%d", strings.TrimPrefix(e, "VERIF_C06_SHM="), phase, id)
+		}
+	}
+	return ""
+}
+
 var phaseStart = time.Now()
+
+// cleanup removes the scratch directories; Finish and HarnessError exit the process, so deferred calls never run.
+var cleanup = func() {}
+
+func fail(format string, a ...any) {
+	cleanup()
+	core.HarnessError(format, a...)
+}
 
 // phase logs coordinator progress on stderr (not part of the verdict).
 func phase(format string, a ...any) {
@@ -228,7 +274,7 @@ func TestC06(t *testing.T) {
 	rep.Assumptions = []string{
 		"construct-pieces uses the real allocator over a storage that accepts every non-negative file size and refuses negative ones with EINVAL (as os.File.Truncate does)",
 		"allocated bytes = runtime.MemStats.TotalAlloc delta around the parser call in a GOMAXPROCS=1 worker; stack memory is not counted, only process death by stack overflow is",
-		"worker address space is limited to (size at start + 4 GiB) for parsing and (size at start + 512 MiB) for construct-pieces; a worker killed by the limit or by the wall budget is reported for the job it had announced",
+		"worker address space is limited to (size at start + 4 GiB) for parsing and (size at start + 256 MiB) for construct-pieces; a worker killed by the limit or by the wall budget is reported for the job it had announced",
 		"the session limits are exercised with MaxPieces=1 and MaxTorrentSize=220 so that lattice members fall on both sides of each limit",
 		"byte values and lengths outside the lattice are not enumerated",
 	}
@@ -237,13 +283,13 @@ func TestC06(t *testing.T) {
 	if err != nil {
 		core.HarnessError("mkdtemp /dev/shm: %v", err)
 	}
-	defer os.RemoveAll(shm)
 	dataBase, err := os.MkdirTemp(os.Getenv("VERIF_TMP"), "c06data")
 	if err != nil {
+		os.RemoveAll(shm)
 		core.HarnessError("mkdtemp: %v", err)
 	}
-	defer os.RemoveAll(dataBase)
-	sessEnv := []string{"VERIF_C06_SHM=" + shm, "VERIF_C06_DATA=" + dataBase}
+	cleanup = func() { os.RemoveAll(shm); os.RemoveAll(dataBase) }
+	scratchEnv = []string{"VERIF_C06_SHM=" + shm, "VERIF_C06_DATA=" + dataBase}
 
 	// debugging aid only (never set by vcheck): VERIF_C06_DEBUG_SKIP=bytes,numeric,deep skips parts of the space
 	dbgSkip := os.Getenv("VERIF_C06_DEBUG_SKIP")
@@ -259,7 +305,7 @@ func TestC06(t *testing.T) {
 				jobs = append(jobs, job{Kind: "bytes", Prefix: string([]byte{alphabet[a], alphabet[b]}), MaxLen: maxLen})
 			}
 		}
-		results := run(jobs, 20*time.Second, 4096)
+		results := run(jobs, 120*time.Second, 4096)
 		hist := map[string]int64{}
 		var n, refValid, refDict, nontrivial int64
 		var maxAlloc uint64
@@ -274,7 +320,7 @@ func TestC06(t *testing.T) {
 			}
 			var br bytesRes
 			if err := json.Unmarshal(r.Data, &br); err != nil {
-				core.HarnessError("bad bytes result: %v", err)
+				fail("bad bytes result: %v", err)
 			}
 			n += br.N
 			refValid += br.RefValid
@@ -307,7 +353,7 @@ func TestC06(t *testing.T) {
 			p *= int64(len(alphabet))
 		}
 		if n != want && rep.Exhaustive && len(fs.m) == 0 {
-			core.HarnessError("byte strings: evaluated %d, expected %d", n, want)
+			fail("byte strings: evaluated %d, expected %d", n, want)
 		}
 		rep.Eval(2 * n)
 		rep.Extra["bytes_strings"] = n
@@ -318,7 +364,7 @@ func TestC06(t *testing.T) {
 		rep.Extra["bytes_max_alloc_per_group_of_32_strings"] = int64(maxAlloc)
 		rep.Distinct += nontrivial
 		if refDict == 0 || nontrivial == 0 {
-			core.HarnessError("vacuous: no byte string is a dictionary / reaches rain's own validation")
+			fail("vacuous: no byte string is a dictionary / reaches rain's own validation")
 		}
 		rep.Sample(2, map[string]any{"bytes_outcomes": topHist(hist, 12)})
 	}
@@ -458,7 +504,7 @@ func TestC06(t *testing.T) {
 			}
 			var pr parseRes
 			if err := json.Unmarshal(r.Data, &pr); err != nil {
-				core.HarnessError("bad parse result: %v", err)
+				fail("bad parse result: %v", err)
 			}
 			parseCalls += int64(pr.NCalls)
 			latticeNontrivial += int64(pr.NonTrivial)
@@ -505,14 +551,14 @@ func TestC06(t *testing.T) {
 		}
 		return
 	}
-	if retry := handleParse(plainJobs, run(plainJobs, 10*time.Second, 4096)); len(retry) > 0 {
+	if retry := handleParse(plainJobs, run(plainJobs, 120*time.Second, 4096)); len(retry) > 0 {
 		rep.Extra["parse_batches_split_after_worker_death"] = int64(len(retry))
-		if again := handleParse(retry, run(retry, 20*time.Second, 4096)); len(again) > 0 {
-			core.HarnessError("singleton retry produced batches")
+		if again := handleParse(retry, run(retry, 60*time.Second, 4096)); len(again) > 0 {
+			fail("singleton retry produced batches")
 		}
 	}
-	handleParse(hostJobs, run(hostJobs, 30*time.Second, 4096))
-	handleParse(hugeJobs, run(hugeJobs, 30*time.Second, 4096))
+	handleParse(hostJobs, run(hostJobs, 60*time.Second, 4096))
+	handleParse(hugeJobs, run(hugeJobs, 60*time.Second, 4096))
 	rep.Eval(parseCalls)
 	rep.Distinct += latticeNontrivial
 	rep.Extra["parse_calls"] = parseCalls
@@ -526,7 +572,7 @@ func TestC06(t *testing.T) {
 	rep.Extra["note_piece_length_2^32+16384_accepted_as_16384"] = truncatedPL
 	rep.Sample(16, map[string]any{"parse_outcomes": topHist(parseHist, 14)})
 	if len(accepted) == 0 || latticeNontrivial == 0 {
-		core.HarnessError("vacuous: the lattice has no accepted member")
+		fail("vacuous: the lattice has no accepted member")
 	}
 
 	// ---------------- construct pieces for every accepted (case, pad flag)
@@ -535,7 +581,23 @@ func TestC06(t *testing.T) {
 		for _, k := range acceptedOrder {
 			jobs = append(jobs, job{Kind: "construct", Cases: []caseSpec{cases[k.c]}, IDs: []int{k.c}, UTF8: k.utf8, Pad: k.pad})
 		}
-		results := run(jobs, 2*time.Second, 512)
+		results := run(jobs, 2*time.Second, 256)
+		// a job over the wall budget is re-run alone with a long budget before anything is concluded from it
+		var hungIdx []int
+		var hungJobs []job
+		for i, r := range results {
+			if r.Hang {
+				hungIdx = append(hungIdx, i)
+				hungJobs = append(hungJobs, jobs[i])
+			}
+		}
+		if len(hungJobs) > 0 {
+			again := run(hungJobs, 90*time.Second, 256)
+			for k, i := range hungIdx {
+				results[i] = again[k]
+			}
+			rep.Extra["construct_jobs_rerun_alone_after_wall_budget"] = int64(len(hungJobs))
+		}
 		outcomes := map[string]int64{}
 		for i, r := range results {
 			j := jobs[i]
@@ -543,28 +605,30 @@ func TestC06(t *testing.T) {
 			in := cs.infoBytes()
 			what := fmt.Sprintf("NewInfo(utf8=%v,pad=%v) accepted, then allocator + piece.NewPieces + CalculateBlocks", j.UTF8, j.Pad)
 			if r.Crash != "" || r.Hang {
-				// every case here has NumPieces <= 2 and <= 100 files: there is no legitimate reason to need 512 MiB or seconds
-				how := "killed by the wall budget"
+				// every case here has NumPieces <= 2 and <= 100 files: the legitimate work is a few hundred steps and a few KiB
+				cl := "wall-budget"
+				how := "still running after 120 s alone on a core"
 				if r.Crash != "" {
-					how = "died: " + crashClass(r.Crash) + " under a 512 MiB address-space headroom (" + lastLines(r.Crash, 2) + ")"
+					cl = crashClass(r.Crash)
+					how = "process died: " + cl + " under a 256 MiB address-space headroom (" + lastLines(r.Crash, 2) + ")"
 				}
-				if r.Crash != "" && crashClass(r.Crash) != "out-of-memory" {
+				if cl != "out-of-memory" && cl != "wall-budget" {
 					outcomes["process-death"]++
-					fs.add("C06.construct.process-death."+crashClass(r.Crash), fmt.Sprintf("%s %s: %s; input %s", what, how, cs.Desc, showInput(in)), len(in), cs.replay("construct"))
+					fs.add("C06.construct.process-death."+cl, fmt.Sprintf("%s %s: %s; input %s", what, how, cs.Desc, showInput(in)), len(in), cs.replay("construct"))
 					continue
 				}
-				outcomes["nontermination"]++
+				outcomes["nontermination("+cl+")"]++
 				fs.add("C06.construct.nontermination", fmt.Sprintf("%s does not terminate (%s): %s; input %s", what, how, cs.Desc, showInput(in)), len(in), cs.replay(fmt.Sprintf("construct pad=%v", j.Pad)))
 				continue
 			}
 			var cr constructRes
 			if err := json.Unmarshal(r.Data, &cr); err != nil {
-				core.HarnessError("bad construct result: %v", err)
+				fail("bad construct result: %v", err)
 			}
 			outcomes[cr.Outcome]++
 			switch cr.Outcome {
 			case "rejected":
-				core.HarnessError("construct: case accepted in the parse phase is rejected now: %s: %s", cs.Desc, cr.Detail)
+				fail("construct: case accepted in the parse phase is rejected now: %s: %s", cs.Desc, cr.Detail)
 			case "skipped-large":
 				rep.Cap(fmt.Sprintf("construct-pieces skipped for NumPieces=%d > %d: %s", cr.NP, maxConstructPieces, cs.Desc))
 			case "panic":
@@ -582,7 +646,7 @@ func TestC06(t *testing.T) {
 		rep.Extra["construct_jobs"] = int64(len(jobs))
 		rep.Extra["construct_outcomes"] = outcomes
 		if outcomes["ok"] == 0 {
-			core.HarnessError("vacuous: construct-pieces never completed")
+			fail("vacuous: construct-pieces never completed")
 		}
 	}
 
@@ -595,7 +659,7 @@ func TestC06(t *testing.T) {
 			if c, ok := torrentOfSize(n); ok {
 				edge = append(edge, c)
 			} else {
-				core.HarnessError("cannot build a torrent of %d bytes", n)
+				fail("cannot build a torrent of %d bytes", n)
 			}
 		}
 		sessCases := append([]caseSpec{}, cases...)
@@ -654,7 +718,7 @@ func TestC06(t *testing.T) {
 				}
 				var sr sessRes
 				if err := json.Unmarshal(r.Data, &sr); err != nil {
-					core.HarnessError("bad session result: %v", err)
+					fail("bad session result: %v", err)
 				}
 				calls += int64(sr.NCalls)
 				mergeHist(hist, sr.Hist)
@@ -691,11 +755,11 @@ func TestC06(t *testing.T) {
 			}
 			return
 		}
-		if retry := handle(jobs, run(jobs, 10*time.Second, 4096, sessEnv...)); len(retry) > 0 {
+		if retry := handle(jobs, run(jobs, 120*time.Second, 4096)); len(retry) > 0 {
 			rep.Extra["session_batches_split_after_worker_death"] = int64(len(retry))
-			handle(retry, run(retry, 20*time.Second, 4096, sessEnv...))
+			handle(retry, run(retry, 60*time.Second, 4096))
 		}
-		handle(hugeJobs, run(hugeJobs, 30*time.Second, 4096, sessEnv...))
+		handle(hugeJobs, run(hugeJobs, 60*time.Second, 4096))
 		rep.Eval(calls)
 		// non-vacuity of the limit checks
 		var tooMany, overSizeAcceptedByNew, edgeAccepted int64
@@ -708,7 +772,7 @@ func TestC06(t *testing.T) {
 			if !cases[c].Hostile && len(cases[c].torrentBytes()) > tightMaxTorrent {
 				overSizeAcceptedByNew++
 				if sessAccepted[c] {
-					core.HarnessError("inconsistent bookkeeping for case %d (%v)", c, a)
+					fail("inconsistent bookkeeping for case %d (%v)", c, a)
 				}
 			}
 		}
@@ -727,10 +791,11 @@ func TestC06(t *testing.T) {
 		rep.Extra["session_outcome_classes"] = int64(len(hist))
 		rep.Sample(18, map[string]any{"session_outcomes": topHist(hist, 10)})
 		if len(fs.m) == 0 && (nAccAdd == 0 || nAccResume == 0 || tooMany == 0 || overSizeAcceptedByNew == 0 || edgeAccepted != 2) {
-			core.HarnessError("vacuous session part: add=%d resume=%d too-many-pieces=%d over-size=%d edge-accepted=%d (want 2)", nAccAdd, nAccResume, tooMany, overSizeAcceptedByNew, edgeAccepted)
+			fail("vacuous session part: add=%d resume=%d too-many-pieces=%d over-size=%d edge-accepted=%d (want 2)", nAccAdd, nAccResume, tooMany, overSizeAcceptedByNew, edgeAccepted)
 		}
 	}
 	fs.flush(rep)
+	cleanup()
 	rep.Finish()
 }
 
